@@ -136,19 +136,21 @@ def main(argv: Sequence[str] = None) -> int:
         {filename for path in args.path for filename in _recursively_find_files(path)}
     )
     for filename in filenames:
-        source = filename.read_text()
+        text = filename.read_text()
+        # A byte order mark is no part of the code, and it stays where it is
+        mark = "\ufeff" if text.startswith("\ufeff") else ""
+        source = text[len(mark) :]
 
         if args.command == "find":
             for match in finditer(args.pattern, source):
-                print(
-                    f"{filename}:{match.lineno}:{match.col_offset}: {match.string.splitlines()[0]}"
-                )
+                first_line = (match.string.splitlines() or [""])[0]
+                print(f"{filename}:{match.lineno}:{match.col_offset}: {first_line}")
 
         elif args.command == "replace":
             print(f"Parsing {filename}...")
             new_source = sub(args.pattern, args.replacement, source)
             if new_source != source:
-                filename.write_text(new_source)
+                filename.write_text(mark + new_source)
 
         else:
             print(f"Unknown command: {args.command}")
